@@ -2,6 +2,7 @@ mod abi;
 mod breadcrumb;
 mod c10;
 mod c12;
+mod c15;
 mod c18;
 mod mapwatch;
 mod ops;
